@@ -34,11 +34,17 @@ inductive COp where
   /-- `setrlimit(RLIMIT_NOFILE, n)` (soft limit) -/
   | setlim (n : Nat)
   | exit (n : Nat)
+  /-- `setrlimit(RLIMIT_NOFILE, soft = n + 1, hard = n)`: a soft limit above the hard one is EINVAL, nothing changes -/
+  | badlim (n : Nat)
+  /-- `wait(getpid())`: a process is not its own child — ECHILD, nothing changes -/
+  | waitself
 
 inductive CObs where
   | file (o : Obs)
   | sig (o : SObs)
   | ok
+  | einval
+  | echild
   deriving DecidableEq, Repr
 
 /-- the child created by `fork` -/
@@ -51,6 +57,8 @@ def cstep (me : XProc) (par : Option Proc) : COp → XProc × Option Proc × Opt
   | .sig op => ({ me with p := (sstep me.p par op).1 }, (sstep me.p par op).2.1, (sstep me.p par op).2.2.map .sig)
   | .setlim n => ({ me with k := { me.k with limit := n } }, par, some .ok)
   | .exit n => ({ me with p := Signal.exit me.p n }, par, none)
+  | .badlim _ => (me, par, some .einval)
+  | .waitself => (me, par, some .echild)
 
 /-- the operations of a child, from the states of child and parent; stops when the child is gone -/
 def childRun : XProc → Proc → List COp → XProc × Proc × List CObs
